@@ -487,7 +487,7 @@ func c03ReuseScenario(x *mc.X) *mc.Outcome {
 func init() {
 	Register(&Prop{
 		ID:    "C03",
-		Rule:  "full product: leaf kind {String, Int, Int32, Int64, Float64, Float32, Bool, Time} × 49 input representations (Go native of every width, decimal/exponent/bool/time strings, unix seconds, JSON-typed float64, []byte, lists, maps) × coercer option {default, WithCoercer, global conf.Coercers override, WithCoercer applied through Ptr, Time.Format ×3 layouts, Time.FormatFunc} × placement {top, struct field, slice element, behind pointer, struct in slice, pre-allocated pointer field}; plus slices of length 0..3 in 5 representations; plus destination independence: every core case with one focus unit parsed into two differently pre-filled destinations (different sentinels, slices with spare capacity); non-trivial = present input; distinct = distinct (kind, option, placement, input type, success)",
+		Rule:  "full product: leaf kind {String, Int, Int32, Int64, Float64, Float32, Bool, Time} × 49 input representations (Go native of every width, decimal/exponent/bool/time strings, unix seconds, JSON-typed float64, []byte, lists, maps) × coercer option {default, WithCoercer, global conf.Coercers override, WithCoercer applied through Ptr, Time.Format ×3 layouts, Time.FormatFunc} × placement {top, struct field, slice element, behind pointer, struct in slice, pre-allocated pointer field}; plus slices of length 0..3 in 5 representations; plus destination independence: every core case with one focus unit parsed into two differently pre-filled destinations (different sentinels, slices with spare capacity); plus the whole destination against the reference model: every core case (hand-picked skeletons and the shape grammar of two-field structs) with ≤2 focus units, all visit orders, on success the destination must equal the model's node for node (leaves, allocated and nil pointers, slice lengths, untouched sentinels); non-trivial = present input; distinct = distinct (kind, option, placement, input type, success)",
 		Floor: 100,
 		Bound: func(tier string) string { return "full product (both tiers)" },
 		Assumptions: []string{
@@ -503,6 +503,11 @@ func init() {
 			items = append(items, Item{Name: "slices-into-populated-destination", MaxDevs: -1, Run: c03ReuseScenario})
 			// destination independence over the core skeletons (any one unit over its full alphabet, all visit orders)
 			items = append(items, coreItems(tier, c03IndependenceScenario, nil, []int{0}, 1)...)
+			// the whole destination against the reference model (any two units over their alphabets, all visit orders)
+			for _, it := range coreItems(tier, c03ModelDestScenario, nil, []int{0}, 2) {
+				it.Name = "model-dest/" + it.Name
+				items = append(items, it)
+			}
 			return items
 		},
 	})
@@ -642,6 +647,38 @@ func c03IndependenceScenario(a *Alpha, ns NamedSkel, focus []string, elems int) 
 			x.Note("input: %v", d["input"])
 			x.Note("visit orders: %v", orders)
 			out.Viol = append(out.Viol, &mc.Violation{Key: "C03:dest-depends-on-prefill:" + ns.Name, What: "the result of Parse depends on what the destination held before the call (stale values survive, or untouched parts are overwritten): " + strings.Join(why, "; "), Expected: fmt.Sprintf("%v %s", oa.IssueStrings(), canonNoTypes(da)), Observed: fmt.Sprintf("%v %s", ob.IssueStrings(), canonNoTypes(db))})
+		}
+		return out
+	}
+}
+
+// ---------------------------------------------------------------------------
+// the whole destination against the reference model over the core space: when Parse reports no
+// issues (and the model expects none), every node of the destination — written leaves, allocated
+// and nil pointers, slice lengths, untouched sentinels of absent optional nodes and of fields the
+// schema does not name — equals the model's destination.
+
+func c03ModelDestScenario(a *Alpha, ns NamedSkel, focus []string, elems int) mc.Scenario {
+	fm := focusMap(focus)
+	return func(x *mc.X) *mc.Outcome {
+		cr := runCore(x, a, ns.S, fm, elems, zh.OrderFree, false)
+		if cr.Redundant {
+			return &mc.Outcome{Sig: "redundant"}
+		}
+		c := cr.Case
+		out := &mc.Outcome{Traces: 1, Nontrivial: c.NDev > 0}
+		if cr.Real.Panic != "" || len(cr.Real.Issues) > 0 || cr.Spec.has() {
+			out.Sig = ns.Name + "|issues"
+			return out
+		}
+		got, want := canonNoTypes(c.Dest.Elem()), canonNoTypes(cr.SpecDest.Elem())
+		out.Sig = ns.Name + "|" + want
+		out.LazySample = func() any { return map[string]any{"case": c.Describe(), "destination": got} }
+		if got != want {
+			for _, l := range cr.describe() {
+				x.Note("%s", l)
+			}
+			out.Viol = append(out.Viol, &mc.Violation{Key: "C03:dest-differs-from-model:" + ns.Name, What: "Parse reported no issues but the destination is not what the documented coercion of the input gives (a leaf differs, a pointer was allocated or left nil, a slice has another length, or an untouched part was written)", Expected: want, Observed: got})
 		}
 		return out
 	}
